@@ -26,17 +26,21 @@ KW = {"non_negative": "non_negative", "soft": "l1_reg", "l2": "l2_reg", "l2_squa
 
 
 def spec_kwargs(route):
-    """route = {"specs": [[operator, style, mode, parameter], ...], "n_const": N, "order": o}: the keyword arguments of
-    proximal_operator; style 'scalar' (all modes), 'dict' ({mode: parameter}) or 'list' (parameter at position mode, None elsewhere)"""
+    """route = {"specs": [[operator, style, mode, parameter, [[other mode, its parameter], ...]], ...], "n_const": N, "order": o}: the keyword
+    arguments of proximal_operator; style 'scalar' (all modes), 'dict' ({mode: parameter, ...}) or 'list' (parameter at position mode, None where
+    the operator is not registered)"""
     kw = {}
-    for nm, style, mode, par in route["specs"]:
-        val = True if par is None else par
+    for spec in route["specs"]:
+        nm, style, mode, par = spec[:4]
+        entries = {int(mode): True if par is None else par}
+        for m, p in (spec[4] if len(spec) > 4 else []):
+            entries[int(m)] = True if p is None else p
         if style == "dict":
-            kw[KW[nm]] = {int(mode): val}
+            kw[KW[nm]] = entries
         elif style == "list":
-            kw[KW[nm]] = [val if i == mode else None for i in range(route["n_const"])]
+            kw[KW[nm]] = [entries.get(i) for i in range(route["n_const"])]
         else:
-            kw[KW[nm]] = val
+            kw[KW[nm]] = entries[int(mode)]
     kw["n_const"] = route["n_const"]; kw["order"] = route["order"]
     return kw
 
@@ -518,10 +522,25 @@ def gen_spec_route(rng, name, par, a, kind, scale):
             specs.append([name2, rng.choice(["dict", "list"]), mode2, par2])
             if rng.random() < 0.5:
                 specs.reverse()
+    # the same operator registered on further modes with other parameter values
+    others = []
+    if style != "scalar":
+        taken = {mode} | ({second[2]} if second else set())
+        for i in range(n_const):
+            if i not in taken and rng.random() < 0.5:
+                pi = gen_par(rng, name, a, kind, scale)
+                if can_dispatch(name, pi):
+                    others.append([i, pi])
+        for sp in specs:
+            if sp[0] == name and sp[2] == mode:
+                sp.append(others)
     order = rng.randrange(n_const)
     route = {"specs": specs, "n_const": n_const, "order": order}
     if style == "scalar" or order == mode:
         return name, par, route
+    for i, pi in others:
+        if order == i:
+            return name, pi, route
     if second is not None and order == second[2]:
         return second[0], second[1], route
     return "identity", None, route
